@@ -63,7 +63,14 @@ def replay_state(sp, st):
     L = max(st["d"]) * st["adiv"]
     lam = float(fr(st["lam"])) * (L if st["gk"] == "l2" else 1)
     pg = {"none": None, "l1": sp.prox.L1Reg([2], lam), "l2": sp.prox.L2Reg([2], lam), "box": sp.prox.BoxConstraint([2], float(LO), float(HI))}[st["gk"]]
-    alg = sp.alg.GradientMethod(lambda v: d * v - c, x, 1.0 / L, proxg=pg, accelerate=False, max_iter=3, tol=0)
+    gbuf = np.zeros(2)
+
+    def gradf_buf(v):                    # a gradient routine that writes into one persistent output buffer (a caller's choice)
+        gbuf[:] = d * v - c
+        return gbuf
+
+    gradf = gradf_buf if (st["iter"] + st["adiv"] + len(st["gk"])) % 2 == 0 else (lambda v: d * v - c)
+    alg = sp.alg.GradientMethod(gradf, x, 1.0 / L, proxg=pg, accelerate=False, max_iter=3, tol=0)
     out = []
     for k in range(st["iter"]):
         if alg.done():
